@@ -25,7 +25,8 @@ def _journal_name(fn, cfg):
         for (n, _l) in _reach(cfg, h):
             if n.kind == "iter" and isinstance(n.ast.iter, ast.Name):
                 tgt = n.ast.target
-                for (m, _l2) in cfg.successors(n):
+                body = [x for x in ast.walk(n.ast) if isinstance(x, ast.stmt) and x is not n.ast]
+                for m in [mm for mm in cfg.stmt_nodes() if mm.ast in body]:
                     if m.kind == "stmt" and isinstance(m.ast, ast.Assign) and "self[]" in node_stores(m) \
                             and isinstance(m.ast.value, ast.Constant) and m.ast.value.value is None \
                             and isinstance(tgt, ast.Name) \
@@ -433,12 +434,22 @@ def run(ctx: Context, P: str = "C35"):
             flv = fnm.norm(fl[0], fl[0].ast.value)
             flat = [n for n in g.stmt_nodes() if "self[]" in node_stores(n) and isinstance(n.ast.targets[0].slice, ast.Slice)]
             rev = [n for n in g.stmt_nodes() if calls_at(n, "reverse")]
-            loop = [t for t in g.find(lambda n: n.kind == "test") if "rows" in names_in(t.ast)]
-            halves = [norm_plain(c.args[0]) for c in calls_in_func(f, "range") if c.args and "last" in names_in(c.args[0])]
+            # the list of rows is the variable flattened into self[:] by sum(ROWS, []); `last` is ROWS[-1]
+            rows_v = None
+            if flat and isinstance(flat[0].ast.value, ast.Call) and call_tail(flat[0].ast.value) == "sum" \
+                    and len(flat[0].ast.value.args) == 2 and isinstance(flat[0].ast.value.args[0], ast.Name):
+                rows_v = flat[0].ast.value.args[0].id
+            last_vs = {t.id for n in g.stmt_nodes() if isinstance(n.ast, ast.Assign) and rows_v
+                       and norm_plain(n.ast.value) == norm_src("%s[-1]" % rows_v) for t in n.ast.targets if isinstance(t, ast.Name)}
+            ren = {rows_v: "ROWS"} if rows_v else {}
+            ren.update({v: "LAST" for v in last_vs})
+            rn = N(None, rename=ren, depth=0)
+            loop = [t for t in g.find(lambda n: n.kind == "test") if rows_v and rows_v in names_in(t.ast)]
+            halves = [rn.norm(c.args[0]) for c in calls_in_func(f, "range") if c.args and (last_vs & names_in(c.args[0]))]
             shapes[cn] = (flv.replace("len(ARG)", "NLEAVES").replace("len([None]*ARG)", "NLEAVES"),
-                          bool(flat) and norm_plain(flat[0].ast.value) == "sum(rows, [])",
+                          bool(flat) and rows_v is not None,
                           bool(rev) and all(not find_path_avoiding(g, lambda x, _n=fn_: x is _n, gate_node=has_call("reverse")) for fn_ in flat),
-                          sorted(fnm.edge_fact(t, ("T", t.ast)) for t in loop), halves)
+                          sorted(FlowNorm(f, rename=dict(ren, **{first_positional_params(f)[0]: "ARG"})).edge_fact(t, ("T", t.ast)) for t in loop), halves)
             r.require(shapes[cn][1] and shapes[cn][2], f, f.loc(), "%s is not flattened root-first (rows.reverse() then sum(rows, []))" % cn)
         a, b = shapes["HashTree"], shapes["IncompleteHashTree"]
         fa = a[0]
